@@ -274,9 +274,74 @@ BPlusTree_items(BPlusTree *self, PyObject *Py_UNUSED(args)) {
 }
 
 
+#ifdef KENTBECK_BPLUSTREE3_VERIF
+/* Verification hook (compiled only with -DKENTBECK_BPLUSTREE3_VERIF): read-only dump of
+ * the node structure as nested tuples
+ *   leaf:   ("L", capacity, num_keys, (keys...), (values...))
+ *   branch: ("B", capacity, num_keys, (keys...), (children...))
+ * plus the leaf chain as a tuple of num_keys per leaf reached from tree->leaves. */
+static PyObject *
+verif_dump_node(BPlusNode *node)
+{
+    if (!node) {
+        Py_RETURN_NONE;
+    }
+    PyObject *keys = PyTuple_New(node->num_keys);
+    if (!keys) return NULL;
+    for (int i = 0; i < node->num_keys; i++) {
+        PyObject *k = node_get_key(node, i);
+        if (!k) k = Py_None;
+        Py_INCREF(k);
+        PyTuple_SET_ITEM(keys, i, k);
+    }
+    PyObject *rest;
+    if (node->type == NODE_LEAF) {
+        rest = PyTuple_New(node->num_keys);
+        if (!rest) { Py_DECREF(keys); return NULL; }
+        for (int i = 0; i < node->num_keys; i++) {
+            PyObject *v = node_get_value(node, i);
+            if (!v) v = Py_None;
+            Py_INCREF(v);
+            PyTuple_SET_ITEM(rest, i, v);
+        }
+    } else {
+        rest = PyTuple_New(node->num_keys + 1);
+        if (!rest) { Py_DECREF(keys); return NULL; }
+        for (int i = 0; i <= node->num_keys; i++) {
+            PyObject *c = verif_dump_node(node_get_child(node, i));
+            if (!c) { Py_DECREF(keys); Py_DECREF(rest); return NULL; }
+            PyTuple_SET_ITEM(rest, i, c);
+        }
+    }
+    return Py_BuildValue("(siiNN)", node->type == NODE_LEAF ? "L" : "B",
+                         (int)node->capacity, (int)node->num_keys, keys, rest);
+}
+
+static PyObject *
+BPlusTree_verif_dump(BPlusTree *self, PyObject *Py_UNUSED(ignored))
+{
+    PyObject *tree = verif_dump_node(self->root);
+    if (!tree) return NULL;
+    Py_ssize_t n = 0;
+    for (BPlusNode *l = self->leaves; l; l = l->next) n++;
+    PyObject *chain = PyTuple_New(n);
+    if (!chain) { Py_DECREF(tree); return NULL; }
+    Py_ssize_t i = 0;
+    for (BPlusNode *l = self->leaves; l; l = l->next) {
+        PyTuple_SET_ITEM(chain, i++, PyLong_FromLong(l->num_keys));
+    }
+    return Py_BuildValue("(NNnn)", tree, chain, (Py_ssize_t)self->size,
+                         (Py_ssize_t)self->modification_count);
+}
+#endif
+
 /* Method definitions */
 
 static PyMethodDef BPlusTree_methods[] = {
+#ifdef KENTBECK_BPLUSTREE3_VERIF
+    {"_verif_dump", (PyCFunction)BPlusTree_verif_dump, METH_NOARGS,
+     "verification hook: nested-tuple dump of the node structure"},
+#endif
     {"keys", (PyCFunction)BPlusTree_keys, METH_NOARGS,
      "Return an iterator over the tree's keys"},
     {"items", (PyCFunction)BPlusTree_items, METH_VARARGS,
